@@ -628,3 +628,47 @@ Definition check_expdet_repaired (acc : bool) (pd dim : nat) (b : bc) (order : n
       end
   | None => false
   end.
+
+(* ---------------- repaired large-dimension branch (cd6ea4a): `_logdet = 2 sum log diag chol(P + sqrt(eps) I)
+   - nullity * log(sqrt(eps))`, i.e. exp(_logdet) = det(P + e I) / e^nullity with e = sqrt(eps) = 2^-26.
+   With c_j the coefficients of the characteristic polynomial (|c_j| = e_(n-j) of the eigenvalues),
+   det(P + e I) = sum_j |c_j| e^j, so for true nullity k:  det(P + e I) / e^k = pdet + |c_(k+1)| e + ... ,
+   |c_(k+1)| / |c_k| = trace of the pseudo-inverse: the reported value exceeds the pseudo-determinant by the
+   relative amount e * trace(P^+) + O(e^2) <= exp(e trace(P^+)) - 1. ---------------- *)
+Definition reg_shift : Q := 1 # 67108864.
+
+Definition abs_coeff (n : nat) (A : list (list Z)) (j : nat) : Q := inject_Z (Z.abs (charpoly_coeff n A j)).
+
+(* sum_(j = k .. n) |c_j| e^(j-k) *)
+Definition reg_poly (n : nat) (A : list (list Z)) (k : nat) : Q :=
+  fold_right (fun j s => Qred (abs_coeff n A j * reg_shift ^ Z.of_nat (j - k) + s)%Q) 0%Q (seq k (S n - k)).
+
+Definition gmrf_expdet_reg_repaired (acc : bool) (pd dim : nat) (b : bc) (order : nat) : option Q :=
+  match gmrf_init_gen (fdm_of acc) true pd dim b order with
+  | Some g =>
+      match b with
+      | Periodic | Neumann =>
+          let k := dim - g_rank g in
+          Some (Qred (det_aux (S dim) (add_diag reg_shift (qmat_of (g_prec g))) / reg_shift ^ Z.of_nat k))%Q
+      | _ => None
+      end
+  | None => None
+  end.
+
+(* (1) the two reference computations agree exactly: elimination over Q = characteristic polynomial at -e;
+   (2) the implementation's exp(_logdet) is that number (1e-6: the pivots of the nearly singular matrix, see check_expdet_reg);
+   (3) it lies between the pseudo-determinant and pseudo-determinant * (1 + 2 e trace(P^+))  [valid while e trace(P^+) <= 1] *)
+Definition check_expdet_reg_repaired (acc : bool) (pd dim : nat) (b : bc) (order : nat) (obs : Q) : bool :=
+  match gmrf_expdet_reg_repaired acc pd dim b order, gmrf_init_gen (fdm_of acc) true pd dim b order with
+  | Some reg, Some g =>
+      let P := g_prec g in
+      let k := dim - g_rank g in
+      let pd_ := abs_coeff dim P k in
+      let tr_pinv := (abs_coeff dim P (S k) / pd_)%Q in
+      (zrank dim P =? g_rank g)%nat &&
+      Qeq_bool reg (reg_poly dim P k) &&
+      q_close tol6 obs reg &&
+      Qle_bool pd_ reg && Qle_bool (reg_shift * tr_pinv) 1 &&
+      Qle_bool reg (pd_ * (1 + 2 * reg_shift * tr_pinv))
+  | _, _ => false
+  end.
